@@ -43,6 +43,9 @@ CHECKS = {
  "C07": dict(level="exploration", enum=True, ref="7/C07", technique="bounded exhaustive run-time contract checking of the real SAT layer (all assignments of all small constraints, pysat as oracle for 'extends to a model') + contract-based deductive step/base lemmas of the ROBDD construction on the real closures with symbolic coefficients",
    text="Exactness is a statement about the model set of a CNF produced by memoised recursion over a process-wide store; it is decided by exhaustive enumeration up to the stated bound, not proved. Deductive part (all integer coefficients, all assignments): the if/else propagation closures of both constructions, the base case, maxsum and the isclause shortcut are exact for lists of <= 3 terms; the generic recursion constructrobdd and the one-directional Tseitin encoding _codifyrobdd are covered by the bounded leg only.",
    note="pysat/Minisat22 trusted as SAT oracle; bounded: <= 3 literals (4 thorough), coefficients in [-3,3], at-most-one groups <= 9 (12), random systems; all encodings share one process (history dimension)"),
+ "C08": dict(level="exploration", enum=True, ref="7/C08", technique="bounded exhaustive run-time contract checking: the CNF built by the real rect.solve is captured and ALL its models (projected on the box/cell variables) are compared with a brute-force enumeration of the k-box single-trunk orthogons; cost-bound behaviour of solve checked against the same enumeration",
+   text="The claim is about the whole model set of a SAT formula built by string-keyed imperative code for every grid; no contract within reach expresses it for unbounded grids, so it is decided by complete enumeration on small lattices (uniform / non-uniform, origin 0 or not, integer / fractional / decimal-step sizes, up to 4x3 and 5x2 cells, k = 1..3, occupancies over {0, 0.5, 1}). Nothing is proved beyond the bound.",
+   note="pysat trusted; the greedy helper (Windows DLL) is not involved: rect.solve is called with a plain carrier object; lattices only (allocation cells forming a full grid)"),
 }
 
 PENDING = {}
